@@ -508,6 +508,51 @@ fn run_uf_case(_case: &[String]) -> String { "{\"error\":\"built without --cfg s
 #[cfg(not(slotted_egraphs_verif))]
 fn run_group_case(_case: &[String]) -> String { "{\"error\":\"built without --cfg slotted_egraphs_verif\"}".to_string() }
 
+fn node_tokens<L: Language>(n: &L) -> String {
+    n.to_syntax().iter().map(|e| match e {
+        SyntaxElem::String(s) => s.clone(),
+        SyntaxElem::Slot(s) => format!("s:{}", value_of_slot(*s)),
+        SyntaxElem::AppliedId(a) => format!("a:{}:{}", a.id.0, a.m.iter().map(|(k, v)| format!("{}>{}", value_of_slot(k), value_of_slot(v))).collect::<Vec<_>>().join(",")),
+    }).collect::<Vec<_>>().join(" ")
+}
+fn parse_node<L: Language>(t: &[&str]) -> Option<L> {
+    let mut elems = Vec::new();
+    for x in t {
+        if let Some(r) = x.strip_prefix("s:") { elems.push(SyntaxElem::Slot(slot_of_value(r.parse().unwrap()))); }
+        else if let Some(r) = x.strip_prefix("a:") {
+            let mut it = r.splitn(2, ':'); let id: usize = it.next().unwrap().parse().unwrap(); let rest = it.next().unwrap_or("");
+            let mut m = SlotMap::new();
+            for kv in rest.split(',') { if kv.is_empty() { continue; } let mut p = kv.split('>'); let k: u32 = p.next().unwrap().parse().unwrap(); let v: u32 = p.next().unwrap().parse().unwrap(); m.insert(slot_of_value(k), slot_of_value(v)); }
+            elems.push(SyntaxElem::AppliedId(AppliedId::new(Id(id), m)));
+        } else { elems.push(SyntaxElem::String(x.to_string())); }
+    }
+    L::from_syntax(&elems)
+}
+fn run_node_case(case: &[String]) -> String {
+    // node <tokens...> : one node of language Lc; prints shape, bijection, slot sets, occurrence lists, check, syntax round trip
+    let head: Vec<&str> = case[0].split_whitespace().collect();
+    let mut out = Vec::new();
+    for line in &case[1..] {
+        let t: Vec<&str> = line.split_whitespace().collect();
+        let r = catch_unwind(AssertUnwindSafe(|| -> String {
+            let Some(n) = parse_node::<Lc>(&t[1..]) else { return "from_syntax=None".to_string() };
+            let (sh, bij) = n.weak_shape();
+            let (sh2, _) = sh.weak_shape();
+            let back = sh.apply_slotmap(&bij);
+            let vs = |v: Vec<Slot>| v.iter().map(|s| value_of_slot(*s).to_string()).collect::<Vec<_>>().join(",");
+            let mut sl: Vec<u32> = n.slots().iter().map(|s| value_of_slot(*s)).collect(); sl.sort();
+            let chk = catch_unwind(AssertUnwindSafe(|| n.check())).is_ok();
+            let rt = L_roundtrip(&n);
+            format!("shape=[{}] bij=[{}] shape2_same={} back=[{}] slots=[{}] all=[{}] public=[{}] private=[{}] check={} roundtrip={}", node_tokens(&sh), show_map(&bij), sh2 == sh, node_tokens(&back),
+                sl.iter().map(|x| x.to_string()).collect::<Vec<_>>().join(","), vs(n.all_slot_occurrences()), vs(n.public_slot_occurrences()), vs(n.private_slot_occurrences()), chk, rt)
+        }));
+        out.push(jstr(&match r { Ok(s) => s, Err(_) => "panic".to_string() }));
+    }
+    format!("{{\"case\":{},\"results\":[{}]}}", jstr(head[1]), out.join(","))
+}
+#[allow(non_snake_case)]
+fn L_roundtrip(n: &Lc) -> bool { Lc::from_syntax(&n.to_syntax()).as_ref() == Some(n) }
+
 fn run_cost_case(case: &[String]) -> String {
     let head: Vec<&str> = case[0].split_whitespace().collect();
     let mut out = Vec::new();
@@ -527,6 +572,7 @@ fn run_cost_case(case: &[String]) -> String {
 
 fn run_case(case: &[String]) -> String {
     if case[0].starts_with("case cost:") { return run_cost_case(case); }
+    if case[0].starts_with("case node:") { return run_node_case(case); }
     if case[0].starts_with("case uf:") { return run_uf_case(case); }
     if case[0].starts_with("case group:") { return run_group_case(case); }
     if case[0].starts_with("case slotmap:") { return run_slotmap_case(case); }
